@@ -494,6 +494,11 @@ def check(ctx):
                     if via == "package":
                         row["via"] = "package"
                     batches[p].append(("vanished", (m, via, oneshot), row))
+    # POSIX front end: signals to a live / zombie / vanished process, then queries on the same object
+    for p in PLATFORMS:
+        if p != "windows":
+            for state in ("alive", "zombie", "gone"):
+                batches[p].append(("sigseq", state, {"k": "sigseq", "pid": 5, "state": state}))
     # Windows: ReadProcessMemory-based methods retry on ERROR_PARTIAL_COPY; a transient one must not
     # show, a persistent one ends as AccessDenied (by design, issue #875) or as the error itself
     for m in ("cmdline", "environ", "cwd"):
@@ -579,6 +584,22 @@ def check(ctx):
                                  {"platform": p, "row": row, "expected": out, "answer": ans})
                 if not bad:
                     lay_ok[(p, mode)] += 1
+            elif tag == "sigseq":
+                state = payload
+                ctx.case(("sigseq", p, state))
+                if ans.get("cls") != "ok":
+                    raise core.Machinery("runner error on signal row %s/%s: %s" % (p, state, ans.get("text")))
+                got = [(s0["what"], s0["cls"]) for s0 in ans["steps"]]
+                zsig = "ZombieProcess" if (state == "zombie" and p == "openbsd") else "ok"
+                want = {"alive": ["ok", "ok", "ok", "ok"], "zombie": [zsig, zsig, "ok", "ok"],
+                        "gone": ["NoSuchProcess", "NoSuchProcess", "NoSuchProcess", "ok"]}[state]
+                run_val = ans["steps"][3].get("val")
+                ok = [c for _, c in got] == want and run_val == (state != "gone")
+                if not ok:
+                    ctx.disagree("conf:%s:signal-sequence:%s" % (p, state),
+                                 "kill(), kill(), ppid(), is_running() on one object of a process that is %s on %s -> %r "
+                                 "(is_running() = %r); expected outcome classes %r and is_running() = %r"
+                                 % (state, p, got, run_val, want, state != "gone"), {"platform": p, "row": row, "answer": ans})
             elif tag == "partial":
                 m, via, n = payload
                 ctx.case(("partial", p, m, via, n))
